@@ -30,6 +30,8 @@ def items(only):
         if not os.path.exists(pf):
             continue
         meta = json.load(open(mf)) if os.path.exists(mf) else {}
+        if meta.get("retired"):
+            continue
         props = meta.get("checks") or [meta.get("property", os.path.basename(d)[:3])]
         out.append({"name": "seeded/" + os.path.basename(d), "patch": pf, "props": props, "kind": "seeded"})
     if only:
